@@ -5,7 +5,8 @@ import Generated.Facts
   The decision skeleton of `config.postprocess`, read from the source on every run, is the one
   `Config.postprocess` models: four colour conversions, each followed by its rejection, then the
   four rejections for an empty hook, a negative preload amount, a negative timeout and a cache
-  size below one, then the time unit conversion, and only then acceptance.  In particular there
+  size below one, then the rejection of a timeout that would not survive the time unit
+  conversion, then that conversion, and only then acceptance.  In particular there
   is no way to be accepted before every check has run.
 -/
 
@@ -24,8 +25,10 @@ theorem skeleton_as_modelled :
        "if err!=nil { reject style.colors.code }",
        "if len(config.Media.Hook)==0 { reject media.hook }",
        "if config.Network.Context<0 { reject network.preload_amount }",
+       "if config.Network.Context>math.MaxInt32 { reject network.preload_amount }",
        "if config.Network.Timeout<0 { reject network.timeout_seconds }",
        "if config.Network.CacheSize<1 { reject network.cache_size }",
+       "if config.Network.Timeout>math.MaxInt64/time.Second { reject network.timeout_seconds }",
        "config.Network.Timeout*=time.Second",
        "accept"] := by decide
 
